@@ -9,7 +9,7 @@ import (
 // Families of input data.
 var Families = []string{
 	"empty", "one", "zeros", "zeroprefix", "run", "random", "xx", "xgapx",
-	"text", "lowent", "periodic", "altseg", "ramp", "nearrep", "sandwich",
+	"text", "lowent", "periodic", "altseg", "ramp", "nearrep", "sandwich", "maxrun", "randzeros",
 }
 
 var words = []string{"the", "quick", "brown", "fox", "jumps", "over", "lazy", "dog", "compression", "dictionary",
@@ -104,6 +104,40 @@ func Data(r *prng.R, family string, n int) []byte {
 		copy(b[:q], text(r, q))
 		r.Bytes(b[q : n-q])
 		copy(b[n-q:], text(r, q))
+	case "maxrun":
+		// periodic stretches of length p + 273*k + 1 between short pieces of text: a greedy
+		// encoder cuts its matches at the maximum length 273 and is left with a single
+		// byte at rep0 distance, i.e. it emits short reps directly after matches
+		i := 0
+		for i < n {
+			t := r.Range(0, 40)
+			if i+t > n {
+				t = n - i
+			}
+			copy(b[i:i+t], text(r, t))
+			i += t
+			p := r.Pick(1, 1, 1, 2, 3, 5)
+			l := p + 273*r.Range(1, 3) + r.Pick(1, 1, 1, 0, 2)
+			if i+l > n {
+				l = n - i
+			}
+			for j := 0; j < l; j++ {
+				if j < p {
+					b[i+j] = byte(r.U64())
+				} else {
+					b[i+j] = b[i+j-p]
+				}
+			}
+			i += l
+		}
+	case "randzeros":
+		// an incompressible head followed by zeros: after a chunk closed by the compressed
+		// size limit the next one runs into the uncompressed size limit
+		h := n / 8
+		if h > 80000 {
+			h = 80000
+		}
+		r.Bytes(b[:h])
 	case "ramp":
 		for i := range b {
 			b[i] = byte(i)
